@@ -7,7 +7,7 @@
             (Model/Wire.lean), `marshalFastMsg`, `unmarshalFastMsg`, ApplicationException's codec
             (Model/WireMsg.lean); the payload struct is an abstract FastCodec `C` satisfying `CodecOK`.
 -/
-import Verif.Lemmas.WireS
+import Verif.Lemmas.WireRd
 import Verif.Lemmas.WireMsg
 namespace Verif.C12
 open Verif.Wire
@@ -62,6 +62,17 @@ theorem msgbegin_roundtrip (name : Bytes) (typ seq : Int) (hn : name.length < 2^
     refine ⟨r', h1, h2, ?_⟩
     unfold lenMessageBegin; omega
 
+/-- the stream-reader part of `msgbegin_roundtrip` on the reader model itself (no contract assumed):
+    every reader state satisfying the representation invariant whose remaining stream starts with the
+    header and that can still deliver it (`Live`), under every source script -/
+theorem msgbegin_stream_live (name : Bytes) (typ seq : Int) (hn : name.length < 2^31)
+    (ht : inI32 typ) (hs : inI32 seq) (r : Rd) (rest : Bytes) (hI : RInv r)
+    (hrem : remaining r = enc (.messageBegin name typ seq) ++ rest)
+    (hl : Live r (enc (.messageBegin name typ seq)).length) :
+    ∃ r', brReadMessageBegin r = .ok ((name, (msgType16 typ : Int), seq), r') ∧ remaining r' = rest ∧
+          r'.readLen = r.readLen + lenMessageBegin name :=
+  (msgbegin_roundtrip name typ seq hn ht hs).2.2.2.2 remaining _ liveCursor r rest hrem ⟨hI, hl⟩
+
 /-- bad_version_iff (buffer reader): given at least 4 bytes, ReadMessageBegin fails with BAD_VERSION
     (type id 4) exactly when the first word's upper half is not the strict-version marker 0x8001 -/
 theorem bad_version_iff (b : Bytes) (h : 4 ≤ b.length) :
@@ -115,6 +126,14 @@ theorem truncated_err (name : Bytes) (typ seq : Int) (hn : name.length < 2^31) (
   have hpe : p = (encM (.messageBegin name typ seq)).take p.length := (List.prefix_iff_eq_take.mp hp)
   rw [hpe, ← errShort_id]
   exact msg_prefix_err name typ seq hn' p.length hk
+
+/-- whatever the buffer reader accepts is exactly an encoded header of the domain: the consumed bytes
+    are `enc` of the returned name, type and seq (so nothing truncated, version-less or otherwise
+    malformed is ever accepted) -/
+theorem accepted_exact (b name : Bytes) (typ seq : Int) (l : Nat)
+    (h : binReadMessageBegin b = .ok (name, typ, seq, l)) :
+    b.take l = enc (.messageBegin name typ seq) ∧ (Val.messageBegin name typ seq).wf :=
+  msg_accept_exact b name typ seq l h
 
 /-- marshal_unmarshal: for a non-empty method, any int32 type that is not EXCEPTION (mod 2^16) and
     any payload codec that writes what it advertises and reads back what it wrote, MarshalFastMsg
